@@ -14,8 +14,11 @@ let parse_cfg (s : string) =
   let reps = List.init 3 (fun i ->
       fresh_rep (lv (g "lv").[i]) ((g "sl").[i] = '1') (lb <> "-" && int_of_string lb = i) (b "lr" && i = 2)) in
   let bo k = (try List.assoc k kv = "1" with Not_found -> false) in
-  (bo "inv", { c_rt = rt; c_stale = b "st"; c_read = b "rd"; c_has_labels = (lb <> "-"); c_leader_only = b "lo"; c_thr = b "thr";
-            c_short_to = b "to"; c_max_sleep = n_of_int (int_of_string (g "ms")); c_val = b "val"; c_reps = reps; c_fw = b "fw" })
+  let tp = (try List.assoc "tp" kv with Not_found -> "K") in
+  let stp = match tp with "F" -> TpTiFlash | "D" -> TpTiDB | _ -> TpTiKV in
+  (* for StoreTp <> TiKV only the validation gate is modelled: compare only the runs it refuses *)
+  (bo "inv" || (tp <> "K" && not (tp = "F" && not (b "val"))), { c_rt = rt; c_stale = b "st"; c_read = b "rd"; c_has_labels = (lb <> "-"); c_leader_only = b "lo"; c_thr = b "thr";
+            c_short_to = b "to"; c_max_sleep = n_of_int (int_of_string (g "ms")); c_val = b "val"; c_reps = reps; c_fw = b "fw"; c_store_tp = stp })
 
 let parse_sym (s : string) : outcome =
   let lv c = match c with 'u' -> Unreachable | 'k' -> Unknown | _ -> Reachable in
@@ -61,7 +64,7 @@ let () =
         bump ("oracle:" ^ (if orc = "pass" then "pass" else "fail"));
         let cmd = (try List.find (fun p -> String.length p > 4 && String.sub p 0 4 = "cmd=") (String.split_on_char ',' cfg) with Not_found -> "cmd=0") in
         if cmd <> "cmd=0" then bump ("cmdtype:" ^ cmd);
-        if fw then begin incr skipped; bump "cfg:preinvalidated(oracles only)" end
+        if fw then begin incr skipped; bump "cfg:preinvalidated-or-nonTiKV-send-path(oracles only)" end
         else begin
           let sc = List.map parse_sym (split_list script ',') in
           let rs = List.map (fun p -> match String.split_on_char ':' p with
